@@ -725,6 +725,35 @@ impl Prop for C08 {
                 max_sched: 200,
                 max_extra: 0,
             }),
+            // fragmentation histories (see C03): the ownership map is evaluated after every operation
+            // while allocations are pieced together across refcount-block slices and refcount blocks
+            Box::new(SeqDomain {
+                name: "frag",
+                quick: 1_500,
+                thorough: 60_000,
+                profile: || Profile {
+                    max_clusters: 400,
+                    ..super::seqprops::frag_profile()
+                },
+                cfg: || SeqCfg {
+                    sweep: false,
+                    check_on_flush: false,
+                    reopen_on_flush: false,
+                    mapping_check: false,
+                    align: false,
+                    final_flush: true,
+                    release_check: false,
+                    ownership: true,
+                    ..SeqCfg::default()
+                },
+                owns: |v| v.rule == Rule::Ownership,
+                nontrivial: |r, _| r.stats.ownership_checks > 0 && r.stats.writes > 0,
+                tweak: |c, raw, _, _| super::seqprops::frag_ops(c, raw),
+                case_tags: no_tags,
+                extra_classes: no_classes,
+                max_sched: 200,
+                max_extra: 0,
+            }),
             Box::new(GrowthDomain),
         ]
     }
